@@ -199,6 +199,8 @@ func (fr *frame) builtin(b *ssa.Builtin, c *ssa.CallCommon, instr ssa.Value, st 
 	case "panic":
 		fr.doPanic(nil, st)
 		return nil
+	case "ssa:wrapnilchk":
+		return []T{fr.val(c.Args[0])}
 	case "print", "println":
 		return []T{}
 	case "append":
